@@ -6,6 +6,8 @@ CONSTANTS
   MaxKills = 3
   MaxCycles = 3
   DedupModes = {FALSE, TRUE}
+  RecoverOnCrash = TRUE
+  ListAllEntries = FALSE
   Emit = FALSE
 INVARIANTS TypeOK DeleteSafe
 VIEW view
